@@ -17,7 +17,11 @@ CLAIMS = {
              "mean what the property states for ALL integers (every: start<=v<end and n | v-start for n!=0, floored "
              "modulo; between; lt/gt/lte/gte). The translator is validated against ptera.tools on an exhaustively "
              "enumerated integer box; the end-to-end filter (constrained selector == unconstrained stream filtered; "
-             "override applied under the same condition) is checked on the implementation against the stated predicate.",
+             "override applied under the same condition) is checked on the implementation against the stated predicate. "
+             "Over the runtime model M3 it is proved that the predicates of the model are the translated tools.py "
+             "definitions, that the handler wrapper tests exactly `every present constrained capture has only "
+             "satisfying values` (an uncaptured constrained variable imposes nothing) and that close records pass the "
+             "same filter; M3 is compared with the implementation on call trees with conditions at several stack levels.",
         design_ref="DESIGN.md section 5, C12",
         note="every(0) divides by zero (outside the stated domain, theorem C12_every_zero_raises); throttle is stateful: "
              "correspondence only. The end-to-end filter theorem is over the handler model M3.",
@@ -84,6 +88,23 @@ CLAIMS["C07"] = dict(
     design_ref="DESIGN.md section 5, C07",
     note="Known finding F17 (value recorded once per embedding) is listed in known_findings.json; the oracle accepts "
          "exactly that deviation and nothing else. Forced-total focused selectors are compared with the model only.",
+)
+
+CLAIMS["C11"] = dict(
+    technique="Lean 4 iff-characterisations of match_tag/check_element, tag-set algebra, exactness of the interaction working set and function-position tags over model M3 + exhaustive unit correspondence + call-tree correspondence + annotation-table oracle",
+    text="Machine-checked proof over the runtime model M3 that a tag-restricted generic capture applies to a binding iff "
+         "the binding's annotation is that tag or a set containing it (named captures additionally require the name; "
+         "unrestricted captures match everything), that matching depends only on the member set of a tag set (merge is "
+         "commutative, associative, idempotent), that the working set of an interaction is exactly the registered "
+         "elements that apply to this binding, and that a tag on the function position requires the return annotation to "
+         "carry it. match_tag/check_element are compared with the model on the whole 3-tag domain; M3 is compared with "
+         "the implementation on call trees whose bindings carry random tag sets; the raw stream (real names, values) is "
+         "compared with the annotation table of the generated program, as are the instrumented sites of the rewritten "
+         "function and the string/object annotation forms.",
+    design_ref="DESIGN.md section 5, C11",
+    note="should_instrument (which sites are rewritten) is checked on the implementation by inspecting the rewritten "
+         "AST, not proved. Globals read by the body are reported by an unrestricted generic capture as external "
+         "variables (documented behaviour, excluded from the oracle).",
 )
 
 PENDING_REASON = ("not claimed yet in this build: the Lean model and correspondence check for this property are "
